@@ -1,11 +1,52 @@
 import EpdVerif.Drivers.Dsl
 import EpdVerif.Gen.Epd1in54c
-/-! model of `src/epd1in54c/mod.rs` (STUB: programs not yet transcribed) -/
+/-! model of `src/epd1in54c/mod.rs` -/
 namespace EpdVerif.Drivers.Epd1in54c
 open EpdVerif
 open EpdVerif.Gen.Epd1in54c
 
-def prog (_f : Feat) (_d : DState) : Op → Option (List Act)
+def W : Act := .wait IS_BUSY_LOW
+
+/-- `send_resolution`: the second byte is `(w >> 8) as u8` (width, as written in the Rust) -/
+def sendResolution : List Act :=
+  [.cmd Command.ResolutionSetting, .data [u8 WIDTH &&& 0b11111000], .data [shr8 WIDTH 8],
+   .data [u8 HEIGHT]]
+
+def init : List Act :=
+  [.reset 10000 2000] ++
+  cmdData Command.BoosterSoftStart [0x17, 0x17, 0x17] ++
+  [.cmd Command.PowerOn, .delayUs 5000, W] ++
+  cmdData Command.PanelSetting [0x0f, 0x0d] ++
+  sendResolution ++
+  cmdData Command.VcomAndDataIntervalSetting [0x77]
+
+def updateAchromatic (b : Bytes) : List Act := [W] ++ cmdData Command.DataStartTransmission1 b
+
+def updateChromatic (c : Bytes) : List Act := [W] ++ cmdData Command.DataStartTransmission2 c
+
+def updateFrame (d : DState) (b : Bytes) : List Act :=
+  updateAchromatic b ++
+  [.cmd Command.DataStartTransmission2, .rep (byteValue d.bg) NUM_DISPLAY_BITS]
+
+def displayFrame : List Act := [.cmd Command.DisplayRefresh, W]
+
+def prog (_f : Feat) (d : DState) : Op → Option (List Act)
+  | .new => some init
+  | .wake => some init
+  | .sleep => some ([W, .cmd Command.PowerOff, W] ++ cmdData Command.DeepSleep [0xa5])
+  | .upd b => some (updateFrame d b)
+  | .part _ _ _ _ _ => some [.panic]
+  | .disp => some displayFrame
+  | .updisp b => some (updateFrame d b ++ displayFrame)
+  | .clear => some [W,
+      .cmd Command.DataStartTransmission1, .rep (byteValue DEFAULT_BACKGROUND_COLOR) NUM_DISPLAY_BITS,
+      .cmd Command.DataStartTransmission2, .rep (byteValue DEFAULT_BACKGROUND_COLOR) NUM_DISPLAY_BITS]
+  | .bg c => some [.upd (fun d => { d with bg := c })]
+  | .lut _ => some []
+  | .wait => some [W]
+  | .color b c => some (updateAchromatic b ++ updateChromatic c)
+  | .achro b => some (updateAchromatic b)
+  | .chro c => some (updateChromatic c)
   | _ => none
 
 def panel (f : Feat) : Panel :=
